@@ -196,18 +196,40 @@ type cHandler struct {
 	hasSub   bool                // switches on the first value read
 	cases    map[string][]string // case label -> reads
 	caseOK   map[string]bool     // straight-line?
+	// the variables the reads are assigned to, for straight-line texts (same order as the kinds; "" when not an assignment)
+	prefixNames []string
+	caseNames   map[string][]string
+}
+
+var reCAssign = regexp.MustCompile(`([A-Za-z_][A-Za-z0-9_]*)\s*=\s*(?:\([^()=;]*\)\s*)*$`)
+
+// cReadNames: for every ParserGet* call of a straight-line text, the identifier it is assigned to.
+func cReadNames(text string) []string {
+	var out []string
+	for _, loc := range reCRead.FindAllStringIndex(text, -1) {
+		st := strings.LastIndexAny(text[:loc[0]], ";{}")
+		stmt := text[st+1 : loc[0]]
+		if m := reCAssign.FindStringSubmatch(stmt); m != nil {
+			out = append(out, m[1])
+		} else {
+			out = append(out, "")
+		}
+	}
+	return out
 }
 
 // cParseHandler splits a handler body at its first top-level switch.
 func cParseHandler(text, fn string) *cHandler {
-	h := &cHandler{fn: fn, cases: map[string][]string{}, caseOK: map[string]bool{}}
+	h := &cHandler{fn: fn, cases: map[string][]string{}, caseOK: map[string]bool{}, caseNames: map[string][]string{}}
 	sw := indexKeywordTop(text, "switch")
 	if sw < 0 {
 		h.prefix, h.prefixOK = cFlat(text)
+		h.prefixNames = cReadNames(text)
 		return h
 	}
 	pre := text[:sw]
 	h.prefix, h.prefixOK = cFlat(pre)
+	h.prefixNames = cReadNames(pre)
 	// switch header and body
 	hs := strings.Index(text[sw:], "(")
 	he := matchParen(text, sw+hs, '(', ')')
@@ -271,11 +293,13 @@ func cParseHandler(text, fn string) *cHandler {
 		k, ok := cFlat(seg)
 		h.cases[labs[i].name] = k
 		h.caseOK[labs[i].name] = ok
+		h.caseNames[labs[i].name] = cReadNames(seg)
 	}
 	for i := len(labs) - 2; i >= 0; i-- {
 		if _, have := h.cases[labs[i].name]; !have {
 			h.cases[labs[i].name] = h.cases[labs[i+1].name]
 			h.caseOK[labs[i].name] = h.caseOK[labs[i+1].name]
+			h.caseNames[labs[i].name] = h.caseNames[labs[i+1].name]
 		}
 	}
 	return h
@@ -336,6 +360,33 @@ type goTask struct {
 	sub    int64
 	hasSub bool
 	exact  bool // literal assigned once (no append on top)
+	names  []string // the variable an element is read from, when it is one
+}
+
+// goVarName: the source variable a value is read from (a join or a memory cell carries its variable's name).
+func goVarName(v ssa.Value) string {
+	for {
+		switch x := v.(type) {
+		case *ssa.Convert:
+			v = x.X
+			continue
+		case *ssa.ChangeType:
+			v = x.X
+			continue
+		}
+		break
+	}
+	switch x := v.(type) {
+	case *ssa.Phi:
+		return x.Comment
+	case *ssa.Parameter:
+		return x.Name()
+	case *ssa.UnOp:
+		if al, ok := x.X.(*ssa.Alloc); ok && x.Op == token.MUL {
+			return al.Comment
+		}
+	}
+	return ""
 }
 
 // goTasks lists the literal Job.Data assignments of TaskPrepare with their command id.
@@ -384,6 +435,7 @@ func (c *Ctx) goTasks(fn *ssa.Function) []goTask {
 			for i, e := range elems {
 				if e == nil {
 					gt.kinds = append(gt.kinds, "?")
+					gt.names = append(gt.names, "")
 					continue
 				}
 				v := e
@@ -391,9 +443,30 @@ func (c *Ctx) goTasks(fn *ssa.Function) []goTask {
 					v = mi.X
 				}
 				gt.kinds = append(gt.kinds, goWireKind(v.Type()))
+				gt.names = append(gt.names, goVarName(v))
 				if i == 0 {
 					if k, ok := ConstInt(v); ok && goWireKind(v.Type()) == "I32" {
 						gt.sub, gt.hasSub = k, true
+					}
+				}
+			}
+			// a first element that is a variable: its value is known where a dominating `v == K` holds (switch SubCommand)
+			if !gt.hasSub && len(elems) > 0 && elems[0] != nil {
+				v0 := elems[0]
+				if mi, ok := v0.(*ssa.MakeInterface); ok {
+					v0 = mi.X
+				}
+				if goWireKind(v0.Type()) == "I32" {
+					for _, fct := range FactsAt(b) {
+						bo, ok := fct.Cond.(*ssa.BinOp)
+						if !ok || bo.Op != token.EQL || !fct.Truth {
+							continue
+						}
+						if bo.X == v0 {
+							if k, ok := ConstInt(bo.Y); ok {
+								gt.sub, gt.hasSub = k, true
+							}
+						}
 					}
 				}
 			}
@@ -496,7 +569,7 @@ func R14Commands(c *Ctx) {
 			skipped++
 			continue
 		}
-		var want []string
+		var want, wantNames []string
 		wantOK := h.prefixOK
 		if len(h.cases) > 0 {
 			if !gt.hasSub || !h.hasSub {
@@ -533,10 +606,12 @@ func R14Commands(c *Ctx) {
 				}
 			}
 			want = append(append([]string{}, h.prefix...), h.cases[label]...)
+			wantNames = append(append([]string{}, h.prefixNames...), h.caseNames[label]...)
 			wantOK = wantOK && h.caseOK[label]
 			construct += " ↔ " + h.fn + " case " + label
 		} else {
 			want = h.prefix
+			wantNames = h.prefixNames
 			construct += " ↔ " + h.fn
 		}
 		if !wantOK {
@@ -555,11 +630,21 @@ func R14Commands(c *Ctx) {
 			continue
 		}
 		compared++
+		if why, ok := reviewedCmd[construct]; ok && reviewedGo[construct] == strings.Join(gt.kinds, " ") && len(want) < len(gt.kinds) && strings.Join(want, " ") == strings.Join(gt.kinds[:len(want)], " ") {
+			c.R.Ok(rule, fname, construct, c.pos(gt.pos), "reviewed: the handler reads a strict prefix ["+strings.Join(want, " ")+"] of what the teamserver sends ["+strings.Join(gt.kinds, " ")+"]; the trailing argument is never looked at: "+why, true)
+			continue
+		}
 		if why, ok := reviewedCmd[construct]; ok && reviewedGo[construct] == strings.Join(gt.kinds, " ") && len(gt.kinds) < len(want) && strings.Join(gt.kinds, " ") == strings.Join(want[:len(gt.kinds)], " ") {
 			c.R.Ok(rule, fname, construct, c.pos(gt.pos), "reviewed: the teamserver sends a strict prefix ["+strings.Join(gt.kinds, " ")+"] of what the handler reads ["+strings.Join(want, " ")+"]; the Demon's parser returns 0 past the end: "+why, true)
 			continue
 		}
 		if strings.Join(gt.kinds, " ") == strings.Join(want, " ") {
+			// same kinds: two arguments of one kind may still be handed over in the other order. Where both sides
+			// name their variables alike, a mutual exchange of two names is reported.
+			if swap := swappedNames(gt.names, wantNames, gt.kinds); swap != "" {
+				c.R.Bad(rule, fname, construct, c.pos(gt.pos), "the wire kinds agree, but "+swap+": the Demon reads each of the two values into the other one's variable")
+				continue
+			}
 			c.R.Ok(rule, fname, construct, c.pos(gt.pos), "["+strings.Join(gt.kinds, " ")+"] on both sides", true)
 		} else {
 			c.R.Bad(rule, fname, construct, c.pos(gt.pos), "the teamserver packs ["+strings.Join(gt.kinds, " ")+"] but the Demon reads ["+strings.Join(want, " ")+"]: every field after the first difference is misread")
@@ -567,4 +652,25 @@ func R14Commands(c *Ctx) {
 	}
 	c.R.Extra["command_arms_compared"] = compared
 	c.R.Extra["command_arms_not_compared"] = skipped
+}
+
+// swappedNames: positions i, j of the same kind where the Go element is read from a variable named like the C
+// variable at the other position, both ways round.
+func swappedNames(goNames, cNames, kinds []string) string {
+	if len(goNames) != len(kinds) || len(cNames) != len(kinds) {
+		return ""
+	}
+	norm := func(s string) string { return strings.ToLower(strings.ReplaceAll(s, "_", "")) }
+	for i := range kinds {
+		for j := i + 1; j < len(kinds); j++ {
+			if kinds[i] != kinds[j] || goNames[i] == "" || goNames[j] == "" || cNames[i] == "" || cNames[j] == "" {
+				continue
+			}
+			gi, gj, ci, cj := norm(goNames[i]), norm(goNames[j]), norm(cNames[i]), norm(cNames[j])
+			if gi != gj && gi == cj && gj == ci {
+				return "argument " + itoa(i+1) + " is " + goNames[i] + " where the Demon reads " + cNames[i] + ", and argument " + itoa(j+1) + " is " + goNames[j] + " where it reads " + cNames[j]
+			}
+		}
+	}
+	return ""
 }
